@@ -56,14 +56,25 @@ func checkC13(c *Ctx, r *Report) {
 	// LOOP / IFACE / UNION by reachability + structure
 	hd := c.fn("(*Directive).hasDirLoop")
 	r.check("C13.LOOP", "directive definition cycles are searched during validation", posFn(hd), hd != nil && vreach[hd], "hasDirLoop is not reachable from Root.validate")
-	vi := c.fn("(*Object).validateInterface")
+	// the conformance check is whatever Object.Validate does (itself or in functions it calls) that leads to the
+	// sub-type predicate; how it is cut into functions is not part of the rule
 	ov := c.fn("(*Object).Validate")
+	sub := c.fn("(*Object).isSubType")
+	te := c.fn("typeEqual")
+	reachesSub := func(f *ssa.Function) bool { return f != nil && sub != nil && (f == sub || c.reachable(f)[sub]) }
 	okI := false
-	if vi != nil && ov != nil {
+	if ov != nil && sub != nil {
 		loops := loopsOf(ov)
 		for _, ci := range callsIn(ov) {
-			if l := innermostLoop(loops, ci.Block()); ci.Common().StaticCallee() == vi && l != nil {
-				// the loop walks the whole Interfaces slice
+			cal := ci.Common().StaticCallee()
+			if cal == nil || !reachesSub(cal) {
+				continue
+			}
+			// a loop around the call walks the whole Interfaces slice
+			for _, l := range loops {
+				if !l.body[ci.Block()] {
+					continue
+				}
 				if ind := loopInduction(l); ind.ok {
 					if x, isLen := isLenOf(ind.length); isLen {
 						if _, o, f, ok := loadOfField(x); ok && o == "Object" && f == "Interfaces" {
@@ -74,32 +85,44 @@ func checkC13(c *Ctx, r *Report) {
 			}
 		}
 	}
-	r.check("C13.IFACE", "(*Object).Validate checks every implemented interface", posFn(ov), okI && vreach[ov], "validateInterface is not called for each element of Interfaces")
-	vf := c.fn("(*Object).validateField")
-	sub := c.fn("(*Object).isSubType")
-	r.check("C13.IFACE", "interface fields are compared by type (isSubType) and arguments", posFn(vf), vf != nil && sub != nil && vreach[vf] && vreach[sub], "field compatibility check not reachable")
+	r.check("C13.IFACE", "(*Object).Validate checks every implemented interface", posFn(ov), okI && vreach[ov], "the conformance check (what leads to the sub-type predicate) is not made for each element of Interfaces")
+	r.check("C13.IFACE", "interface fields are compared by type (isSubType) and arguments", posFn(sub), sub != nil && te != nil && ov != nil && c.reachable(ov)[sub] && c.reachable(ov)[te] && vreach[sub], "field compatibility check not reachable")
 	// positions and their predicates: the field's type is covariant (isSubType), an argument's type is invariant (typeEqual)
-	if vf != nil {
-		te := c.fn("typeEqual")
+	if ov != nil && sub != nil {
+		var region []*ssa.Function
+		for f := range c.reachable(ov) {
+			if c.inPkg(f) && f != sub && !c.reachable(sub)[f] && reachesSub(f) {
+				region = append(region, f)
+			}
+		}
+		region = append(region, ov)
+		sort.Slice(region, func(i, j int) bool { return fnName(region[i]) < fnName(region[j]) })
 		nA := 0
-		for _, ci := range callsIn(vf) {
-			cal := ci.Common().StaticCallee()
-			if cal == nil || (cal != sub && cal != te) {
+		seenFn := map[*ssa.Function]bool{}
+		for _, vf := range region {
+			if seenFn[vf] {
 				continue
 			}
-			pos := ""
-			for _, arg := range ci.Common().Args {
-				if _, o, f, ok := loadOfField(stripIface(arg)); ok && f == "Type" {
-					pos = o
+			seenFn[vf] = true
+			for _, ci := range callsIn(vf) {
+				cal := ci.Common().StaticCallee()
+				if cal == nil || (cal != sub && cal != te) {
+					continue
 				}
-			}
-			switch pos {
-			case "Arg":
-				nA++
-				r.check("C13.IFACE", fmt.Sprintf("%s: argument types of an interface field are compared for equality", fnName(vf)), ci.Pos(), cal == te,
-					"argument types are compared with the covariant predicate: an implementation that narrows an argument (String -> String!, [String] -> [String!]) is accepted although callers of the interface field may pass what the interface allows")
-			case "FieldDef":
-				r.check("C13.IFACE", fmt.Sprintf("%s: the field's own type is compared with the sub-type predicate", fnName(vf)), ci.Pos(), cal == sub, "the field type must be the interface field's type or a sub-type of it")
+				pos := ""
+				for _, arg := range ci.Common().Args {
+					if _, o, f, ok := loadOfField(stripIface(arg)); ok && f == "Type" {
+						pos = o
+					}
+				}
+				switch pos {
+				case "Arg":
+					nA++
+					r.check("C13.IFACE", fmt.Sprintf("%s: argument types of an interface field are compared for equality", fnName(vf)), ci.Pos(), cal == te,
+						"argument types are compared with the covariant predicate: an implementation that narrows an argument (String -> String!, [String] -> [String!]) is accepted although callers of the interface field may pass what the interface allows")
+				case "FieldDef":
+					r.check("C13.IFACE", fmt.Sprintf("%s: the field's own type is compared with the sub-type predicate", fnName(vf)), ci.Pos(), cal == sub, "the field type must be the interface field's type or a sub-type of it")
+				}
 			}
 		}
 		r.floor("C13.IFACE", "argument type comparisons in the interface conformance check", nA, 1)
@@ -972,12 +995,37 @@ func c13SubWrap(c *Ctx, r *Report, sub *ssa.Function) {
 // call that checks one field is control dependent on nothing but the loop's own test - not on a set of names
 // already seen under another interface (two interfaces may declare one name differently).
 func c13IfaceEvery(c *Ctx, r *Report) {
-	vi := c.fn("(*Object).validateInterface")
-	vf := c.fn("(*Object).validateField")
-	if vi == nil {
-		r.undecided("C13.IFACE", "anchor (*Object).validateInterface", token.NoPos, "not found")
+	ov := c.fn("(*Object).Validate")
+	sub := c.fn("(*Object).isSubType")
+	if ov == nil || sub == nil {
+		r.undecided("C13.IFACE", "anchor (*Object).Validate / isSubType", token.NoPos, "not found")
 		return
 	}
+	// the function that looks each field of the interface up in the object: it calls the field list's get inside a loop
+	var vi *ssa.Function
+	var cands []*ssa.Function
+	for f := range c.reachable(ov) {
+		cands = append(cands, f)
+	}
+	cands = append(cands, ov)
+	sort.Slice(cands, func(i, j int) bool { return fnName(cands[i]) < fnName(cands[j]) })
+	for _, f := range cands {
+		if !c.inPkg(f) || !(f == ov || c.reachable(f)[sub]) || c.reachable(sub)[f] || f == sub {
+			continue
+		}
+		ls := loopsOf(f)
+		for _, ci := range callsIn(f) {
+			cal := ci.Common().StaticCallee()
+			if cal != nil && cal.Name() == "get" && recvName(cal) == "fieldList" && innermostLoop(ls, ci.Block()) != nil && vi == nil {
+				vi = f
+			}
+		}
+	}
+	if vi == nil {
+		r.undecided("C13.IFACE", "anchor: the loop that looks every field of an interface up in the object", token.NoPos, "not found")
+		return
+	}
+	reachesSub := func(f *ssa.Function) bool { return f == sub || c.reachable(f)[sub] }
 	loops := loopsOf(vi)
 	n := 0
 	for _, ci := range callsIn(vi) {
@@ -985,7 +1033,7 @@ func c13IfaceEvery(c *Ctx, r *Report) {
 		if cal == nil {
 			continue
 		}
-		isCheck := (vf != nil && cal == vf) || cal.Name() == "get" && recvName(cal) == "fieldList"
+		isCheck := reachesSub(cal) || cal.Name() == "get" && recvName(cal) == "fieldList"
 		if !isCheck {
 			continue
 		}
